@@ -689,6 +689,30 @@ def call_ext(it: Any, f: ExtV, args: List[Any], kwargs: Dict[str, Any], node: An
             for m_ in reversed(maps):
                 merged.update(m_)
             return merged  # read-only use: first mapping wins
+    if name == "collections.defaultdict":
+        from .values import DefaultDictV
+        from .builtins_model import BUILTINS
+
+        d_ = DefaultDictV(BUILTINS["dict"].fn(it, args[1:], kwargs, node))
+        d_.factory = args[0] if args else None
+        return d_
+    if name == "collections.Counter":
+        from .values import DefaultDictV
+
+        d_ = DefaultDictV()
+        d_.is_counter = True
+        if args:
+            src = args[0]
+            if isinstance(src, dict):
+                d_.update(src)
+            else:
+                seq = it.concrete_iter(src)
+                if seq is None or not all(A._hashable(x_) for x_ in seq):
+                    raise A.Unsupported("Counter over non-concrete / unhashable elements")
+                for x_ in seq:
+                    d_[x_] = d_.get(x_, 0) + 1
+        d_.update(kwargs)
+        return d_
     if name in ("collections.OrderedDict", "collections.defaultdict") and not (name.endswith("defaultdict") and args and args[0] is not None):
         from .builtins_model import BUILTINS
 
